@@ -9,8 +9,8 @@ defective message are processed completely; status 0 iff nothing was defective."
 import os, re
 import common, mdrun, iorun, c01
 
-KINDS_OK = ['plain', 'date-ok', 'b64-ok', 'mime-ok', 'dest:ok2', 'exec:0', 'flags-ok', 'attblock-ok', 'cmdarg:0']
-KINDS_BAD = ['date-bad', 'b64-bad', 'mime-deep', 'dest:nowhere', 'exec:3', 'interp', 'flags-bad', 'mime-noterm', 'attblock-bad', 'attblock-badlast', 'cmdinterp', 'dirinterp']
+KINDS_OK = ['plain', 'date-ok', 'date-okabbr', 'b64-ok', 'mime-ok', 'dest:ok2', 'exec:0', 'flags-ok', 'attblock-ok', 'cmdarg:0']
+KINDS_BAD = ['date-bad', 'date-nozone', 'b64-bad', 'mime-deep', 'dest:nowhere', 'exec:3', 'interp', 'flags-bad', 'mime-noterm', 'attblock-bad', 'attblock-badlast', 'cmdinterp', 'dirinterp']
 
 
 def nested(depth):
@@ -27,6 +27,10 @@ def make_message(kind, i):
     body = mk + b'\n'
     if kind == 'date-ok':
         hdr += b'Date: Mon, 01 Jan 2001 10:00:00 +0000\n'
+    elif kind == 'date-okabbr':
+        hdr += b'Date: Mon, 01 Jan 2001 10:00:00 %s\n' % [b'GMT', b'EST', b'UT', b'CET'][i % 4]
+    elif kind == 'date-nozone':
+        hdr += b'Date: Tue, 12 Mar 2019 08:00:00\n'            # no zone at all: not a date mdsort accepts, whatever it parsed before
     elif kind == 'date-bad':
         hdr += b'Date: the day after tomorrow\n'
     elif kind == 'b64-ok':
@@ -233,6 +237,39 @@ def stdin_run(ck, stats, case, i):
     sb.cleanup()
 
 
+def defect_after_healthy_stage(ck, stats):
+    """a defective message is recognised as such whatever healthy messages were processed before it in the same run (new/ is walked
+    before cur/): a Date without zone after Dates with zone abbreviations, an undecodable body after a decodable one, ..."""
+    cases = [('date-okabbr', 'date-nozone'), ('date-ok', 'date-nozone'), ('date-okabbr', 'date-bad'), ('b64-ok', 'b64-bad'), ('mime-ok', 'mime-noterm'),
+             ('exec:0', 'exec:3'), ('cmdarg:0', 'cmdinterp')]
+    for ok_kind, bad_kind in cases:
+        sb = mdrun.Sandbox()
+        dst = os.path.join(sb.root, 'dst'); os.makedirs(dst)
+        for d in ('ok', 'ok2'):
+            for s_ in ('new', 'cur'):
+                os.makedirs(os.path.join(dst, d, s_))
+        src = sb.maildir('src0')
+        placed = []
+        for i, (kind, sub) in enumerate([(ok_kind, 'new'), (ok_kind, 'new'), (bad_kind, 'cur'), (ok_kind, 'cur')]):
+            name, content = make_message(kind, i)
+            sb.add(src, sub, content, name=name, mtime=1500000000)
+            placed.append((kind, sub, name, content))
+        conf = sb.write_conf(CONF % {'src': src, 'dst': dst})
+        rc, out, err = sb.run([], conf=conf)
+        stats['runs'] += 1
+        left = sb.snapshot(src)
+        badk, bads, badn, badc = placed[2]
+        moved_ok = sum(1 for b in sb.snapshot(os.path.join(dst, 'ok')).values() if any(b == p[3] for p in placed if p[0] == ok_kind))
+        rep = {'config': open(conf).read(), 'kinds': [p[0] for p in placed], 'exit': rc, 'stderr': err[-400:].decode(errors='replace')}
+        if left.get((bads, badn)) != badc:
+            ck.violation('a %s message processed after healthy %s messages did not stay untouched (exit %d)' % (bad_kind, ok_kind, rc), rep)
+        elif rc == 0:
+            ck.violation('a %s message processed after healthy %s messages: exit status 0' % (bad_kind, ok_kind), rep)
+        elif moved_ok != 3:
+            ck.violation('%d of the 3 healthy %s messages around a %s one were processed' % (moved_ok, ok_kind, bad_kind), rep)
+        sb.cleanup()
+
+
 def unusable_stage(ck, stats):
     """maildirs that cannot be used (missing, a file, new/ or cur/ missing or a file) next to a healthy one, and commands that
     exist but cannot be executed: a non-zero status, the healthy maildir still processed"""
@@ -350,6 +387,7 @@ def run(ck):
     for i, case in enumerate(STDIN_CASES):
         stdin_run(ck, stats, case, i)
     stdin_fault_runs(ck, stats)
+    defect_after_healthy_stage(ck, stats)
     unusable_stage(ck, stats)
     ck.coverage.update({
         'evaluations': stats['runs'],
